@@ -265,6 +265,127 @@ func runC15(c *Ctx) {
 			}
 		}
 	}
+	// ---- keys obtained from the public constructors NewKeyEC2 / NewKeyOKP / NewKeySymmetric ----
+	{
+		lens := func(size int) [][]byte {
+			mk := func(n int) []byte {
+				b := r.Bytes(n)
+				if b == nil {
+					b = []byte{}
+				}
+				return b
+			}
+			return [][]byte{nil, {}, mk(size - 1), nil /* exact: filled in below */, mk(size + 1), mk(2 * size)}
+		}
+		lenNames := []string{"nil", "empty", "short", "exact", "long", "2xsize"}
+		ctorAlgs := []cose.Algorithm{cose.AlgorithmES256, cose.AlgorithmES384, cose.AlgorithmES512, cose.AlgorithmEdDSA, cose.AlgorithmPS256, 0, 99}
+		for _, alg := range ctorAlgs {
+			ci, isEC := map[cose.Algorithm]int{cose.AlgorithmES256: 0, cose.AlgorithmES384: 1, cose.AlgorithmES512: 2}[alg]
+			size := c15sizes[ci]
+			base := mat.full[ci]
+			xs, ys, ds := lens(size), lens(size), lens(size)
+			xs[3], ys[3], ds[3] = base.X.FillBytes(make([]byte, size)), base.Y.FillBytes(make([]byte, size)), base.D.FillBytes(make([]byte, size))
+			for xi, x := range xs {
+				for yi, y := range ys {
+					for di, d := range ds {
+						cell := fmt.Sprintf("ctor/NewKeyEC2/alg=%d/x=%s/y=%s/d=%s", int64(alg), lenNames[xi], lenNames[yi], lenNames[di])
+						in := map[string]any{"cell": cell}
+						var k *cose.Key
+						var err error
+						if guard(rec, "NewKeyEC2", in, func() { k, err = cose.NewKeyEC2(alg, x, y, d) }) {
+							continue
+						}
+						rec.Eval(1)
+						rec.Class(fmt.Sprintf("%s/ok=%v", cell, err == nil))
+						if err != nil {
+							rec.Event("ctor:refused")
+							continue
+						}
+						rec.Event("ctor:built")
+						if !isEC {
+							rec.Violate("ctor", "NewKeyEC2/alg", fmt.Sprintf("NewKeyEC2 built a key for algorithm %d, which is not an ECDSA algorithm", int64(alg)), in)
+							continue
+						}
+						if len(x) > size || len(y) > size || len(d) > size {
+							rec.Violate("ctor", "NewKeyEC2/coordinate-size", "NewKeyEC2 built a key with a coordinate longer than the curve's size", in)
+						}
+						c15gate(rec, k, cell, c15facts{kty: 2, ktyInt: true, crv: int64(ci + 1), crvInt: true, alg: int64(alg),
+							hasD: len(d) > 0, hasX: x != nil, hasY: y != nil}, in)
+						if b, merr := k.MarshalCBOR(); merr == nil {
+							c15judgeWire(rec, b, cell, "constructor")
+						}
+					}
+				}
+			}
+			oxs := [][]byte{nil, {}, mat.edX[:31], mat.edX, append(append([]byte{}, mat.edX...), 0), append(append([]byte{}, mat.edX...), mat.edX...)}
+			ods := [][]byte{nil, {}, mat.edD[:31], mat.edD, append(append([]byte{}, mat.edD...), 0), append(append([]byte{}, mat.edD...), mat.edD...)}
+			for xi, x := range oxs {
+				for di, d := range ods {
+					cell := fmt.Sprintf("ctor/NewKeyOKP/alg=%d/x=%s/d=%s", int64(alg), lenNames[xi], lenNames[di])
+					in := map[string]any{"cell": cell}
+					var k *cose.Key
+					var err error
+					if guard(rec, "NewKeyOKP", in, func() { k, err = cose.NewKeyOKP(alg, x, d) }) {
+						continue
+					}
+					rec.Eval(1)
+					rec.Class(fmt.Sprintf("%s/ok=%v", cell, err == nil))
+					if err != nil {
+						rec.Event("ctor:refused")
+						continue
+					}
+					rec.Event("ctor:built")
+					if alg != cose.AlgorithmEdDSA {
+						rec.Violate("ctor", "NewKeyOKP/alg", fmt.Sprintf("NewKeyOKP built a key for algorithm %d", int64(alg)), in)
+						continue
+					}
+					if len(x) > 32 || len(d) > 32 {
+						rec.Violate("ctor", "NewKeyOKP/size", "NewKeyOKP built a key with x or d longer than 32 bytes", in)
+					}
+					c15gate(rec, k, cell, c15facts{kty: 1, ktyInt: true, crv: 6, crvInt: true, alg: -8, hasD: len(d) > 0, hasX: x != nil}, in)
+					if b, merr := k.MarshalCBOR(); merr == nil {
+						c15judgeWire(rec, b, cell, "constructor")
+					}
+				}
+			}
+		}
+		for _, kb := range [][]byte{nil, {}, {1}, r.Bytes(16), r.Bytes(32)} {
+			cell := fmt.Sprintf("ctor/NewKeySymmetric/len=%d/nil=%v", len(kb), kb == nil)
+			in := map[string]any{"cell": cell}
+			var k *cose.Key
+			if guard(rec, "NewKeySymmetric", in, func() { k = cose.NewKeySymmetric(kb) }) || k == nil {
+				continue
+			}
+			rec.Eval(1)
+			rec.Class(cell)
+			rec.Event("ctor:built")
+			c15gate(rec, k, cell, c15facts{kty: 4, ktyInt: true}, in)
+			if b, merr := k.MarshalCBOR(); merr == nil {
+				c15judgeWire(rec, b, cell, "constructor")
+			}
+		}
+		// key_ops names: String and KeyOpFromString are inverse on the eight RFC 7517 names and
+		// nothing else maps to an operation
+		for op := cose.KeyOp(-3); op <= 14; op++ {
+			name := op.String()
+			back, ok := cose.KeyOpFromString(name)
+			rec.Eval(1)
+			rec.Class("keyop/" + name)
+			rfc7517 := op >= cose.KeyOpSign && op <= cose.KeyOpDeriveBits
+			if rfc7517 && (!ok || back != op) {
+				rec.Violate("keyop", name, fmt.Sprintf("KeyOpFromString(%q) = %d,%v but %d.String() = %q", name, int64(back), ok, int64(op), name), nil)
+			}
+			if !rfc7517 && ok {
+				rec.Violate("keyop", name, fmt.Sprintf("KeyOpFromString accepts %q, which is not an RFC 7517 operation name", name), nil)
+			}
+		}
+		for _, s := range []string{"", "Sign", "sign ", "SIGN", "verify\x00", "mac create", "1", "signverify"} {
+			if op, ok := cose.KeyOpFromString(s); ok {
+				rec.Violate("keyop", "loose-name", fmt.Sprintf("KeyOpFromString(%q) = %d", s, int64(op)), nil)
+			}
+			rec.Eval(1)
+		}
+	}
 	// Go keys on curves the COSE_Key conversion does not support must be refused, not silently
 	// relabelled as a supported curve of the same size
 	secp256k1 := &elliptic.CurveParams{Name: "secp256k1", BitSize: 256}
